@@ -277,7 +277,8 @@ class Gen(object):
                 pats += ["*", "*"]
             q = query.Wildcard(rng.choice(["t", "t", "t", "u"]), rng.choice(pats))
         elif r < 0.47:
-            q = query.Regex("t", rng.choice(["a.*", ".*o", "b(ra)+v.*", "alf?", "[a-c].*", "x", ".*", "alfa", "al|br.*"]))
+            q = query.Regex("t", rng.choice(["a.*", ".*o", "b(ra)+v.*", "alf?", "[a-c].*", "x", ".*", "alfa", "al|br.*", "alfx{0,2}a",
+                                             "brx{0}avo", "ec{0,1}ho", "delt{0,}a"]))
         elif r < 0.52:
             a, b = sorted([rng.randint(-6, 6), rng.randint(-6, 6)])
             q = query.NumericRange("n", rng.choice([a, None]), rng.choice([b, None]), rng.random() < .3, rng.random() < .3,
